@@ -31,6 +31,12 @@ CheckGrid(e) ==
     \o Need(Same(e.grid, want), "C19", <<"Grid::make_from_dicts">> \o Diff(want, e.grid))
     \o Need(Same(e.value_grid, want), "C19", <<"Value::make_grid_from_dicts">>)
     \o Need(Same(e.meta_grid, GridFromDicts(e.rows, e.meta)), "C19", <<"Grid::make_from_dicts_with_meta">>)
+    \o (IF e.helpers = <<>> THEN <<>> ELSE LET h == e.helpers[1] IN
+         Need(h.len = Len(e.rows) /\ h.is_empty = (e.rows = <<>>), "X19", <<"Grid::len / is_empty", h.len>>)
+         \o Need(h.indexed, "X19", <<"grid[i] / iteration do not give the records in order">>)
+         \o Need(~h.is_err /\ ~h.meta_is_err /\ h.errmeta_is_err = HasErrMarker(h.errmeta), "X19", <<"Grid::is_err", h.errmeta_is_err>>)
+         \o Need(Same(h.make_err, ErrGrid(h.dis)) /\ h.make_err_is_err, "X19", <<"Grid::make_err">> \o Diff(ErrGrid(h.dis), h.make_err))
+         \o Need(Same(h.make_empty, EmptyGrid) /\ Same(h.default, DefaultGrid), "X19", <<"Grid::make_empty / default">>))
 
 Check(e) ==
     CASE e.op = "kind.code" -> Need(e.ok => (e.back = e.code /\ e.name \in KindNames /\ e.name2 = e.name /\ e.name_back_ok /\ e.name_back_code = e.code), "C19", <<"code / enumeration / name do not commute", e.code>>)
